@@ -37,10 +37,12 @@ type Conc struct {
 func NewConc(seed int64, u *big.Int) *Conc {
 	c := &Conc{Seed: seed, U: u, Trees: map[string][]absx.M{}, addrRev: map[string]string{}, denomRev: map[string]string{},
 		rootRev: map[string]absx.M{}, leafRev: map[string]string{}, metaRev: map[string]absx.M{}, dataRev: map[string]string{}}
+	long := "factory/init1qqqqqqqqqqqqqqqqqqqqqqqqqqqqqqqqqqqqqqqqqqqqpqr5s4/" // two long denoms that share a 64-byte prefix
 	pools := [][]string{
 		{"uinit", "ibc/27394FB092D2ECCD56123C74F36E4C1F926001CEADA9CA97EA622B25F41E5EB2", "utia", "factory/init1xyz/sub-denom"},
-		{"test1", "test2", "test3", "test4"},
+		{long + "uusdc", long + "uusdt", "test3", "test4"},
 		{"move/944f8dd8dc49f96c25fea9849f16436dcfa6d564eec802f3ef7f8b3ea85368ff", "uusdc", "l2/771d639f30fbe45e3fbca954ffbe2fcc26f915f5513c67a4a2d0bc1d635bdefd", "a/b:c.d_e-f"},
+		{"test1", "test2", "test3", "test4"},
 	}
 	c.denomPool = pools[int(uint64(seed)%uint64(len(pools)))]
 	return c
@@ -76,6 +78,8 @@ func (c *Conc) Addr(name string) string {
 		var id uint64
 		fmt.Sscanf(name[3:], "%d", &id)
 		s = sdk.AccAddress(fmtx.BridgeAddr(id)).String() // independent derivation of the escrow address
+	case strings.HasPrefix(name, "up:"): // the same address written in upper case: a different string
+		s = strings.ToUpper(c.Addr(name[3:]))
 	case name == "opchild":
 		s = authtypes.NewModuleAddress("opchild").String()
 	case name == "feecollector":
